@@ -1502,5 +1502,26 @@ pub fn all(plan: &Plan, out: &Outcome) -> Vec<Violation> {
     o_api(plan, out, &mut vs);
     o_greeting(plan, out, &mut vs);
     o_myc(plan, out, &mut vs);
+    if matches!(out.end, RunEnd::Panic { .. }) && carried_on_after_refusal(plan, out) {
+        // A shim that ignores a refused row and carries on is writing into a row writer whose
+        // column cursor is out of step. The library may refuse what follows with an error or,
+        // where its encoders assert the signedness of a column, with a panic (the refusal mode
+        // C15 accepts as well): not a finding. What must not happen is that it succeeds with
+        // a corrupted response, which the reply oracles judge when every later call succeeded.
+        vs.retain(|v| v.rule != "panic" && v.rule != "end");
+    }
     vs
+}
+
+/// some program of the plan skipped a refused row (carry-on recovery) and that refusal happened
+fn carried_on_after_refusal(plan: &Plan, out: &Outcome) -> bool {
+    out.model.cmds.iter().enumerate().any(|(i, m)| {
+        let carry = matches!(&plan.cmds[i].act, Act::Program(p) if p.units.iter().any(|u| matches!(u, Unit::Rows(r) if matches!(&r.recover, Some((k, _)) if *k == crate::model::CARRY_ON))));
+        carry
+            && m.live
+            && match m.act_index {
+                Some(ai) => out.w.api.iter().any(|a| a.act as usize == ai && !a.ok),
+                None => false,
+            }
+    })
 }
